@@ -89,7 +89,7 @@ def collectFirst {β γ : Type} (f : β → Outcome γ) : List β → Outcome (L
       | .err e => .err e
       | .panic m => .panic m
 
-def whereVal (g : GenericsD) : Val := if g.whereToks.isEmpty then .none else .some (.toks g.whereToks)
+def whereVal (g : GenericsD) : Val := if g.hasWhere then .some (.toks g.whereToks) else .none
 
 /-- `impl FromGenerics for ast::Generics<P>`: every parameter converted in order (the first
     failure is returned), the where-clause cloned -/
